@@ -272,11 +272,14 @@ func c03Encoder(c *Ctx, r *Report, er encRun, id string) map[string]bool {
 	for _, cj := range er.rst {
 		var a, b *Write
 		extra := ""
+		var both *Write
 		for _, w := range after {
 			if !consistent(cj, w.state) {
 				continue
 			}
 			switch {
+			case w.kind == wLEn && w.n == 2 && cj.entails(atomEQ(w.off, L.addc(-2))) && both == nil && a == nil && b == nil:
+				both = w // binary.LittleEndian.PutUint16(buf[L-2:], crc): low byte first
 			case w.kind == wByte && cj.entails(atomEQ(w.off, L.addc(-2))) && a == nil:
 				a = w
 			case w.kind == wByte && cj.entails(atomEQ(w.off, L.addc(-1))) && b == nil:
@@ -284,6 +287,14 @@ func c03Encoder(c *Ctx, r *Report, er encRun, id string) map[string]bool {
 			default:
 				extra = w.pos
 			}
+		}
+		if both != nil && extra == "" && a == nil && b == nil {
+			if v, ok := both.val.(AInt); ok && cj.entails(atomEQ(er.fr.useIn(v, DNF{cj}, "crc"), crcv.a)) {
+				pass("buf[L-2:L] = that CRC stored little-endian (low byte first), after it was computed")
+			} else {
+				fail("trailer is not (low byte, high byte) of the CRC of the preceding bytes", "little-endian store of "+describeAV(both.val), "trailer:le16")
+			}
+			continue
 		}
 		if a == nil || b == nil || extra != "" {
 			fail("after the CRC16 call the encoder does not store exactly buf[L-2] and buf[L-1]", "unexpected or missing write "+extra, "trailer-writes")
